@@ -102,23 +102,52 @@ Proof.
       rewrite H. cbn [Nat.eqb b2n]. lia.
 Qed.
 
-(** ** the invariant *)
-Definition live (s : state) : Prop := cnt 5 s = 1%nat \/ (st s = 2 /\ cnt 11 s = 0%nat).
+(** ** the invariant: the system is in one of eight phases *)
+Section Phases.
+  Variable s : state.
+  Let c (k : nat) := cnt k s.
+  Let n := length (threads s).
+  Let F := fini_sum (threads s).
 
-Record Inv (s : state) : Prop := {
-  i_st : st s = 0 \/ st s = 1 \/ st s = 2;
-  i_one : (cnt 4 s + cnt 5 s <= 1)%nat;                          (* at most one initialiser *)
-  i_st1 : st s = 1 <-> (cnt 4 s + cnt 5 s = 1)%nat;               (* and then the state is "initializing" *)
-  i_cas : n_cas s = (n_really s + cnt 4 s)%nat;
-  i_excl : fini_sum (threads s) = 0%nat \/
-           (fini_sum (threads s) = 1%nat /\ (cnt 0 s + 1 = length (threads s))%nat);  (* fini runs alone *)
-  i_donei : (1 <= cnt 12 s)%nat -> st s = 2;
-  i_live : live s -> n_really s = S (n_fini s) /\ gnw s = Some (nworkers s);
-  i_dead : ~ live s -> n_really s = n_fini s /\ nworkers s = 0;
-  i_fwait : (1 <= cnt 7 s + cnt 8 s + cnt 9 s + cnt 10 s + cnt 11 s)%nat -> st s = 2;
-  i_fread : (1 <= cnt 6 s)%nat -> st s <> 1;
-  i_flags0 : live s -> cnt 10 s = 0%nat -> flags s = start_flags (nworkers s);
-  i_flags1 : cnt 10 s = 1%nat -> flags s = raise_flags (start_flags (nworkers s)) }.
+  (* uninitialised, nobody finalising *)
+  Definition phA : Prop :=
+    st s = 0 /\ F = 0%nat /\ c 4 = 0%nat /\ c 5 = 0%nat /\ c 12 = 0%nat /\
+    n_cas s = n_really s /\ n_really s = n_fini s /\ nworkers s = 0.
+  (* uninitialised, one caller inside myth_fini (entering, or returning), everybody else outside *)
+  Definition phB : Prop :=
+    st s = 0 /\ (c 0 + 1 = n)%nat /\ (c 6 + c 13 = 1)%nat /\
+    n_cas s = n_really s /\ n_really s = n_fini s /\ nworkers s = 0.
+  (* the CAS winner is about to run the real initialisation *)
+  Definition phC : Prop :=
+    st s = 1 /\ F = 0%nat /\ c 4 = 1%nat /\ c 5 = 0%nat /\ c 12 = 0%nat /\
+    n_cas s = S (n_really s) /\ n_really s = n_fini s /\ nworkers s = 0.
+  (* the real initialisation is complete, not yet published *)
+  Definition phD : Prop :=
+    st s = 1 /\ F = 0%nat /\ c 4 = 0%nat /\ c 5 = 1%nat /\ c 12 = 0%nat /\
+    n_cas s = n_really s /\ n_really s = S (n_fini s) /\
+    gnw s = Some (nworkers s) /\ flags s = start_flags (nworkers s).
+  (* initialised, nobody finalising *)
+  Definition phE : Prop :=
+    st s = 2 /\ F = 0%nat /\ c 4 = 0%nat /\ c 5 = 0%nat /\
+    n_cas s = n_really s /\ n_really s = S (n_fini s) /\
+    gnw s = Some (nworkers s) /\ flags s = start_flags (nworkers s).
+  (* finalisation before the exit flags are raised *)
+  Definition phF : Prop :=
+    st s = 2 /\ (c 0 + 1 = n)%nat /\ (c 6 + c 7 + c 8 + c 9 = 1)%nat /\
+    n_cas s = n_really s /\ n_really s = S (n_fini s) /\
+    gnw s = Some (nworkers s) /\ flags s = start_flags (nworkers s).
+  (* exit flags raised, workers not yet joined *)
+  Definition phG : Prop :=
+    st s = 2 /\ (c 0 + 1 = n)%nat /\ c 10 = 1%nat /\
+    n_cas s = n_really s /\ n_really s = S (n_fini s) /\
+    gnw s = Some (nworkers s) /\ flags s = raise_flags (start_flags (nworkers s)).
+  (* torn down, "uninit" not yet published *)
+  Definition phH : Prop :=
+    st s = 2 /\ (c 0 + 1 = n)%nat /\ c 11 = 1%nat /\
+    n_cas s = n_really s /\ n_really s = n_fini s /\ nworkers s = 0.
+
+  Definition Inv : Prop := phA \/ phB \/ phC \/ phD \/ phE \/ phF \/ phG \/ phH.
+End Phases.
 
 Definition initial (n : nat) (s : state) : Prop := s = init_state n.
 
@@ -130,16 +159,8 @@ Qed.
 
 Lemma inv_init n : Inv (init_state n).
 Proof.
-  assert (Hc : forall k, cnt k (init_state n) = if (k =? 0)%nat then n else 0%nat)
-    by (intros k; unfold cnt, init_state; cbn [threads]; apply cntl_repeat_idle).
-  assert (Hf : fini_sum (threads (init_state n)) = 0%nat).
-  { unfold fini_sum. fold (cnt 6 (init_state n)) (cnt 7 (init_state n)) (cnt 8 (init_state n)) (cnt 9 (init_state n))
-      (cnt 10 (init_state n)) (cnt 11 (init_state n)) (cnt 13 (init_state n)). rewrite !Hc. reflexivity. }
-  assert (Hnl : ~ live (init_state n)).
-  { unfold live. rewrite !Hc. cbn. lia. }
-  constructor; rewrite ?Hc; cbn [init_state st n_cas n_really n_fini gnw nworkers flags Nat.eqb]; try lia.
-  - intros H. contradiction.
-  - intros H. contradiction.
+  left. unfold phA, cnt, fini_sum, init_state; cbn [threads st n_cas n_really n_fini nworkers].
+  rewrite !cntl_repeat_idle. cbn [Nat.eqb]. repeat split.
 Qed.
 
 (** effect of one step on the counts: the acting caller moves from its old
@@ -152,154 +173,233 @@ Ltac counts s i t t' Hn Hpc :=
   go 10%nat; go 11%nat; go 12%nat; go 13%nat; go 14%nat.
 
 Ltac open_state :=
-  unfold live, cnt, fini_sum in *;
+  unfold phA, phB, phC, phD, phE, phF, phG, phH, cnt, fini_sum in *;
   cbn [threads st gnw nworkers flags n_cas n_really n_fini with_thread] in *;
   rewrite ?set_nth_length in *.
 
-(** what is left after linear arithmetic: facts inherited from the old state
-    (premises re-established by arithmetic) or contradictory premises *)
-Ltac oldf Ilive Idead Iflags0 Iflags1 :=
-  intros; first [ lia | apply Ilive; lia | apply Idead; lia | apply Iflags0; lia | apply Iflags1; lia | exfalso; lia ].
+Ltac conj := repeat split; first [ lia | reflexivity | assumption | congruence ].
+
+(** the new state is in one of the phases (or the step was impossible) *)
+Ltac phase :=
+  first [ solve [exfalso; lia]
+        | solve [left; conj]
+        | solve [right; left; conj]
+        | solve [right; right; left; conj]
+        | solve [right; right; right; left; conj]
+        | solve [right; right; right; right; left; conj]
+        | solve [right; right; right; right; right; left; conj]
+        | solve [right; right; right; right; right; right; left; conj]
+        | solve [right; right; right; right; right; right; right; conj] ].
+
+Ltac phases HI :=
+  destruct HI as [HI|[HI|[HI|[HI|[HI|[HI|[HI|HI]]]]]]];
+  open_state; decompose [and] HI; clear HI; phase.
 
 Lemma inv_step s a s' : Inv s -> step s a = Some s' -> Inv s'.
 Proof.
   intros HI Hs. destruct a as [i e]. unfold step in Hs.
   destruct (nth_error (threads s) i) as [t|] eqn:Hn; [|discriminate].
   pose proof (cntl_total (threads s)) as Htot.
-  destruct HI as [Ist Ione Ist1 Icas Iexcl Idonei Ilive Idead Ifwait Ifread Iflags0 Iflags1].
-  destruct e as [o| |r|]; destruct (t_pc t) eqn:Hpc; try discriminate.
-  - (* Call *)
-    destruct o as [a d| |n|r].
-    + (* OpInit *)
-      destruct (no_fini s) eqn:Hnf; [|discriminate]. inversion Hs; subst s'; clear Hs.
-      pose proof (no_fini_counts (threads s) Hnf) as Hf0.
-      counts s i t (at_pc t (IRead a d)) Hn Hpc.
-      constructor; open_state; try lia; oldf Ilive Idead Iflags0 Iflags1.
-    + (* OpFini *)
+  unfold Inv in *.
+  destruct e as [[a d| |n|r]| |r|]; destruct (t_pc t) eqn:Hpc; try discriminate.
+  - (* Call OpInit *)
+      destruct (no_fini s) eqn:Hnf; [|discriminate]. injection Hs as Hs; subst s'.
+      pose proof (no_fini_counts (threads s) Hnf) as Hf0. unfold fini_sum in Hf0.
+      counts s i t (at_pc t (IRead a d)) Hn Hpc. phases HI.
+  - (* Call OpFini *)
       destruct (others is_idle (threads s) i && ((st s =? 0) || has_rank t)) eqn:Hg; [|discriminate].
-      apply andb_prop in Hg. destruct Hg as [Hoth _]. inversion Hs; subst s'; clear Hs.
+      apply andb_prop in Hg. destruct Hg as [Hoth _]. injection Hs as Hs; subst s'.
       pose proof (others_idle_counts (threads s) i t Hn Hoth) as Hid.
       unfold klass in Hid. rewrite Hpc in Hid. cbn [Nat.eqb b2n] in Hid.
-      counts s i t (at_pc t FRead) Hn Hpc.
-      constructor; open_state; try lia; oldf Ilive Idead Iflags0 Iflags1.
-    + (* OpSetNW *)
+      counts s i t (at_pc t FRead) Hn Hpc. phases HI.
+  - (* Call OpSetNW *)
       destruct (others is_idle (threads s) i && (st s =? 0)) eqn:Hg; [|discriminate].
-      apply andb_prop in Hg. destruct Hg as [Hoth Hst0]. apply Z.eqb_eq in Hst0. inversion Hs; subst s'; clear Hs.
+      apply andb_prop in Hg. destruct Hg as [Hoth Hst0]. apply Z.eqb_eq in Hst0. injection Hs as Hs; subst s'.
       pose proof (others_idle_counts (threads s) i t Hn Hoth) as Hid.
       unfold klass in Hid. rewrite Hpc in Hid. cbn [Nat.eqb b2n] in Hid.
-      counts s i t (at_pc t DoneO) Hn Hpc.
-      constructor; open_state; try lia; oldf Ilive Idead Iflags0 Iflags1.
-    + (* OpMove *)
+      counts s i t (at_pc t DoneO) Hn Hpc. phases HI.
+  - (* Call OpMove *)
       destruct (no_fini s && (st s =? 2) && has_rank t && (0 <=? r) && (r <? nworkers s)) eqn:Hg; [|discriminate].
-      repeat (apply andb_prop in Hg; destruct Hg as [Hg ?]). inversion Hs; subst s'; clear Hs.
-      pose proof (no_fini_counts (threads s) Hg) as Hf0.
-      counts s i t {| t_pc := DoneO; t_rank := Some r |} Hn Hpc.
-      constructor; open_state; try lia; oldf Ilive Idead Iflags0 Iflags1.
+      repeat (apply andb_prop in Hg; destruct Hg as [Hg ?]). injection Hs as Hs; subst s'.
+      pose proof (no_fini_counts (threads s) Hg) as Hf0. unfold fini_sum in Hf0.
+      counts s i t {| t_pc := DoneO; t_rank := Some r |} Hn Hpc. phases HI.
   - (* Tick, IRead *)
-    inversion Hs; subst s'; clear Hs.
+    injection Hs as Hs; subst s'.
     destruct (st s =? 2) eqn:E2.
-    + apply Z.eqb_eq in E2. counts s i t (at_pc t (DoneI 1)) Hn Hpc.
-      constructor; open_state; try lia; oldf Ilive Idead Iflags0 Iflags1.
-    + counts s i t (at_pc t (ICas a d)) Hn Hpc.
-      constructor; open_state; try lia; oldf Ilive Idead Iflags0 Iflags1.
+    + apply Z.eqb_eq in E2. counts s i t (at_pc t (DoneI 1)) Hn Hpc. phases HI.
+    + apply Z.eqb_neq in E2. counts s i t (at_pc t (ICas a d)) Hn Hpc. phases HI.
   - (* Tick, ICas *)
-    destruct (st s =? 0) eqn:E0; inversion Hs; subst s'; clear Hs.
-    + apply Z.eqb_eq in E0. counts s i t (at_pc t (IReally a d)) Hn Hpc.
-      constructor; open_state; try lia; oldf Ilive Idead Iflags0 Iflags1.
-    + counts s i t (at_pc t IWait) Hn Hpc.
-      constructor; open_state; try lia; oldf Ilive Idead Iflags0 Iflags1.
+    destruct (st s =? 0) eqn:E0; injection Hs as Hs; subst s'.
+    + apply Z.eqb_eq in E0. counts s i t (at_pc t (IReally a d)) Hn Hpc. phases HI.
+    + apply Z.eqb_neq in E0. counts s i t (at_pc t IWait) Hn Hpc. phases HI.
   - (* Tick, IWait *)
-    inversion Hs; subst s'; clear Hs.
+    injection Hs as Hs; subst s'.
     destruct (st s =? 2) eqn:E2.
-    + apply Z.eqb_eq in E2. counts s i t (at_pc t (DoneI 1)) Hn Hpc.
-      constructor; open_state; try lia; oldf Ilive Idead Iflags0 Iflags1.
-    + counts s i t (at_pc t IWait) Hn Hpc.
-      constructor; open_state; try lia; oldf Ilive Idead Iflags0 Iflags1.
+    + apply Z.eqb_eq in E2. counts s i t (at_pc t (DoneI 1)) Hn Hpc. phases HI.
+    + apply Z.eqb_neq in E2. counts s i t (at_pc t IWait) Hn Hpc. phases HI.
   - (* Tick, IReally *)
-    inversion Hs; subst s'; clear Hs.
-    counts s i t {| t_pc := IPublish; t_rank := Some 0 |} Hn Hpc.
-    assert (Hnl : ~ (cntl 5 (threads s) = 1%nat \/ st s = 2 /\ cntl 11 (threads s) = 0%nat))
-      by (unfold cnt in *; lia).
-    destruct (Idead Hnl) as [Hd1 Hd2].
-    constructor; open_state; try lia.
-    * intros _. split; [lia|reflexivity].
-    * intros Hl. exfalso. apply Hl. left. lia.
-    * intros _ _. reflexivity.
+    injection Hs as Hs; subst s'.
+    counts s i t {| t_pc := IPublish; t_rank := Some 0 |} Hn Hpc. phases HI.
   - (* Tick, IPublish *)
-    inversion Hs; subst s'; clear Hs.
-    counts s i t (at_pc t (DoneI 1)) Hn Hpc.
-    assert (Hl0 : cntl 5 (threads s) = 1%nat \/ st s = 2 /\ cntl 11 (threads s) = 0%nat)
-      by (unfold cnt in *; left; lia).
-    destruct (Ilive Hl0) as [Hl1 Hl2].
-    constructor; open_state; try lia; oldf Ilive Idead Iflags0 Iflags1.
+    injection Hs as Hs; subst s'.
+    counts s i t (at_pc t (DoneI 1)) Hn Hpc. phases HI.
   - (* Tick, FRead *)
-    inversion Hs; subst s'; clear Hs.
+    injection Hs as Hs; subst s'.
     destruct (st s =? 0) eqn:E0.
-    + apply Z.eqb_eq in E0. counts s i t (at_pc t (DoneF 1)) Hn Hpc.
-      constructor; open_state; try lia; oldf Ilive Idead Iflags0 Iflags1.
-    + apply Z.eqb_neq in E0. counts s i t (at_pc t FWait) Hn Hpc.
-      constructor; open_state; try lia; oldf Ilive Idead Iflags0 Iflags1.
+    + apply Z.eqb_eq in E0. counts s i t (at_pc t (DoneF 1)) Hn Hpc. phases HI.
+    + apply Z.eqb_neq in E0. counts s i t (at_pc t FWait) Hn Hpc. phases HI.
   - (* Tick, FWait *)
-    inversion Hs; subst s'; clear Hs.
+    injection Hs as Hs; subst s'.
     destruct (st s =? 2) eqn:E2.
-    + apply Z.eqb_eq in E2. counts s i t (at_pc t FMigrate) Hn Hpc.
-      constructor; open_state; try lia; oldf Ilive Idead Iflags0 Iflags1.
-    + counts s i t (at_pc t FWait) Hn Hpc.
-      constructor; open_state; try lia; oldf Ilive Idead Iflags0 Iflags1.
+    + apply Z.eqb_eq in E2. counts s i t (at_pc t FMigrate) Hn Hpc. phases HI.
+    + apply Z.eqb_neq in E2. counts s i t (at_pc t FWait) Hn Hpc. phases HI.
   - (* Tick, FMigrate *)
-    destruct (rank_is t 0); inversion Hs; subst s'; clear Hs.
-    counts s i t (at_pc t FFlags) Hn Hpc.
-    constructor; open_state; try lia; oldf Ilive Idead Iflags0 Iflags1.
+    destruct (rank_is t 0); [|discriminate]. injection Hs as Hs; subst s'.
+    counts s i t (at_pc t FFlags) Hn Hpc. phases HI.
   - (* Tick, FFlags *)
-    inversion Hs; subst s'; clear Hs.
-    counts s i t (at_pc t FJoin) Hn Hpc.
-    assert (H9 : (1 <= cntl 9 (threads s))%nat) by (apply (cntl_ge1 9 (threads s) i t Hn); unfold klass; rewrite Hpc; reflexivity).
-    assert (Hst2 : st s = 2) by (apply Ifwait; unfold cnt; lia).
-    assert (Hl0 : cntl 5 (threads s) = 1%nat \/ st s = 2 /\ cntl 11 (threads s) = 0%nat)
-      by (unfold cnt, fini_sum in *; right; lia).
-    assert (Hfl : flags s = start_flags (nworkers s)) by (apply Iflags0; [exact Hl0|unfold cnt, fini_sum in *; lia]).
-    constructor; open_state; try lia.
-    * oldf Ilive Idead Iflags0 Iflags1.
-    * oldf Ilive Idead Iflags0 Iflags1.
-    * intros. exfalso. lia.
-    * intros _. rewrite Hfl. reflexivity.
+    injection Hs as Hs; subst s'.
+    counts s i t (at_pc t FJoin) Hn Hpc. phases HI.
   - (* Tick, FJoin *)
-    inversion Hs; subst s'; clear Hs.
-    counts s i t {| t_pc := FPublish; t_rank := None |} Hn Hpc.
-    assert (H10 : (1 <= cntl 10 (threads s))%nat) by (apply (cntl_ge1 10 (threads s) i t Hn); unfold klass; rewrite Hpc; reflexivity).
-    assert (Hst2 : st s = 2) by (apply Ifwait; unfold cnt; lia).
-    assert (Hl0 : cntl 5 (threads s) = 1%nat \/ st s = 2 /\ cntl 11 (threads s) = 0%nat)
-      by (unfold cnt, fini_sum in *; right; lia).
-    destruct (Ilive Hl0) as [Hl1 Hl2].
-    constructor; open_state; try lia.
-    * intros Hl. exfalso. lia.
-    * intros _. split; [lia|reflexivity].
-    * intros Hl. exfalso. lia.
-    * intros Hl. exfalso. lia.
+    injection Hs as Hs; subst s'.
+    counts s i t {| t_pc := FPublish; t_rank := None |} Hn Hpc. phases HI.
   - (* Tick, FPublish *)
-    inversion Hs; subst s'; clear Hs.
-    counts s i t (at_pc t (DoneF 0)) Hn Hpc.
-    assert (H11 : (1 <= cntl 11 (threads s))%nat) by (apply (cntl_ge1 11 (threads s) i t Hn); unfold klass; rewrite Hpc; reflexivity).
-    assert (Hnl : ~ (cntl 5 (threads s) = 1%nat \/ st s = 2 /\ cntl 11 (threads s) = 0%nat)).
-    { unfold cnt, fini_sum in *. intros [H|[_ H]]; [|lia].
-      assert (st s = 2) by (apply Ifwait; lia). lia. }
-    destruct (Idead Hnl) as [Hd1 Hd2].
-    constructor; open_state; try lia.
-    * intros Hl. exfalso. lia.
-    * intros _. split; [lia|exact Hd2].
-    * intros Hl. exfalso. lia.
-    * intros Hl. exfalso. lia.
+    injection Hs as Hs; subst s'.
+    counts s i t (at_pc t (DoneF 0)) Hn Hpc. phases HI.
   - (* Mig, FMigrate *)
-    destruct (has_rank t && negb (rank_is t 0) && (0 <=? r) && (r <? nworkers s)); inversion Hs; subst s'; clear Hs.
-    counts s i t {| t_pc := FMigrate; t_rank := Some r |} Hn Hpc.
-    constructor; open_state; try lia; oldf Ilive Idead Iflags0 Iflags1.
+    destruct (has_rank t && negb (rank_is t 0) && (0 <=? r) && (r <? nworkers s)); [|discriminate]. injection Hs as Hs; subst s'.
+    counts s i t {| t_pc := FMigrate; t_rank := Some r |} Hn Hpc. phases HI.
   - (* Ret, DoneI *)
-    inversion Hs; subst s'; clear Hs. counts s i t (at_pc t Idle) Hn Hpc.
-    constructor; open_state; try lia; oldf Ilive Idead Iflags0 Iflags1.
+    injection Hs as Hs; subst s'. counts s i t (at_pc t Idle) Hn Hpc. phases HI.
   - (* Ret, DoneF *)
-    inversion Hs; subst s'; clear Hs. counts s i t (at_pc t Idle) Hn Hpc.
-    constructor; open_state; try lia; oldf Ilive Idead Iflags0 Iflags1.
+    injection Hs as Hs; subst s'. counts s i t (at_pc t Idle) Hn Hpc. phases HI.
   - (* Ret, DoneO *)
-    inversion Hs; subst s'; clear Hs. counts s i t (at_pc t Idle) Hn Hpc.
-    constructor; open_state; try lia; oldf Ilive Idead Iflags0 Iflags1.
+    injection Hs as Hs; subst s'. counts s i t (at_pc t Idle) Hn Hpc. phases HI.
+Qed.
+
+Theorem inv_reachable n s : reachable (initial n) step s -> Inv s.
+Proof.
+  apply (@invariant_rule state (nat * ev) (initial n) step Inv).
+  - intros s0 ->. apply inv_init.
+  - intros s0 a s1 HI Hs. eapply inv_step; eassumption.
+Qed.
+
+(** ** facts local to one caller *)
+Definition local_ok (t : thread) : Prop :=
+  (t_pc t = FFlags \/ t_pc t = FJoin -> t_rank t = Some 0) /\ (forall r, t_pc t = DoneI r -> r = 1).
+
+Lemma rank_is_some t r : rank_is t r = true -> t_rank t = Some r.
+Proof. unfold rank_is. destruct (t_rank t) as [k|]; [|discriminate]. intros H. apply Z.eqb_eq in H. subst. reflexivity. Qed.
+
+Lemma local_step s i e s' : step s (i, e) = Some s' ->
+  exists t t', nth_error (threads s) i = Some t /\ threads s' = set_nth (threads s) i t' /\ (local_ok t -> local_ok t').
+Proof.
+  unfold step. destruct (nth_error (threads s) i) as [t|] eqn:Hn; [|discriminate].
+  intros Hs. exists t.
+  destruct e as [[a d| |n|r]| |r|]; destruct (t_pc t) eqn:Hpc; try discriminate;
+    repeat match type of Hs with
+           | (if ?b then _ else _) = _ => destruct b eqn:?; try discriminate
+           end;
+    injection Hs as Hs; subst s'; cbn [threads with_thread];
+    (eexists; split; [reflexivity|split; [reflexivity|]]);
+    unfold local_ok; cbn [t_pc t_rank at_pc]; intros [H1 H2];
+    (split; [intros [H|H]; try discriminate|intros r0 H; try discriminate]).
+  all: try (injection H as <-; reflexivity).
+  all: try (apply rank_is_some; assumption).
+  all: try (apply H1; left; exact Hpc).
+  all: try (destruct (st s =? 2); discriminate).
+  all: try (destruct (st s =? 0); discriminate).
+  all: try (destruct (st s =? 2); [injection H as <-; reflexivity|discriminate]).
+Qed.
+
+Lemma local_reachable n s : reachable (initial n) step s ->
+  forall i t, nth_error (threads s) i = Some t -> local_ok t.
+Proof.
+  apply (@invariant_rule state (nat * ev) (initial n) step
+           (fun s => forall i t, nth_error (threads s) i = Some t -> local_ok t)).
+  - intros s0 -> i t Hn. unfold init_state in Hn; cbn [threads] in Hn.
+    apply nth_error_In, repeat_spec in Hn. subst t. unfold local_ok; cbn [t_pc]. split; [intros [H|H]; discriminate|intros r H; discriminate].
+  - intros s0 [i e] s1 HI Hs j tj Hj.
+    destruct (local_step s0 i e s1 Hs) as (t & t' & Hn & Hth & Hloc).
+    rewrite Hth in Hj. rewrite nth_error_set_nth in Hj by (rewrite Hn; discriminate).
+    destruct (Nat.eqb i j) eqn:E.
+    + injection Hj as <-. apply Hloc. eapply HI. exact Hn.
+    + eapply HI. exact Hj.
+Qed.
+
+(** ** consequences *)
+Definition initialiser (t : thread) : bool :=
+  match t_pc t with IReally _ _ | IPublish => true | _ => false end.
+
+Fixpoint cntp (p : thread -> bool) (l : list thread) : nat :=
+  match l with [] => 0%nat | t :: r => (b2n (p t) + cntp p r)%nat end.
+
+Lemma cntp_ge1 p l : forall i t, nth_error l i = Some t -> p t = true -> (1 <= cntp p l)%nat.
+Proof.
+  induction l as [|y l IH]; intros i t Hi Hp; [destruct i; discriminate|].
+  destruct i as [|i']; cbn [nth_error cntp] in *.
+  - injection Hi as ->. rewrite Hp. cbn. lia.
+  - specialize (IH i' t Hi Hp). lia.
+Qed.
+
+Lemma cntp_two p l : forall i j ti tj, nth_error l i = Some ti -> nth_error l j = Some tj -> i <> j ->
+  p ti = true -> p tj = true -> (2 <= cntp p l)%nat.
+Proof.
+  induction l as [|y l IH]; intros i j ti tj Hi Hj Hne Hpi Hpj; [destruct i; discriminate|].
+  destruct i as [|i'], j as [|j']; cbn [nth_error cntp] in *.
+  - contradiction Hne; reflexivity.
+  - injection Hi as ->. rewrite Hpi. pose proof (cntp_ge1 p l j' tj Hj Hpj). cbn. lia.
+  - injection Hj as ->. rewrite Hpj. pose proof (cntp_ge1 p l i' ti Hi Hpi). cbn. lia.
+  - assert (i' <> j') by lia. specialize (IH i' j' ti tj Hi Hj H Hpi Hpj). lia.
+Qed.
+
+Lemma cntp_initialiser l : cntp initialiser l = (cntl 4 l + cntl 5 l)%nat.
+Proof.
+  induction l as [|t l IH]; cbn [cntp cntl]; [reflexivity|]. rewrite IH.
+  unfold initialiser, klass. destruct (t_pc t); cbn [b2n Nat.eqb]; lia.
+Qed.
+
+Ltac by_phase HI :=
+  destruct HI as [HI|[HI|[HI|[HI|[HI|[HI|[HI|HI]]]]]]];
+  unfold phA, phB, phC, phD, phE, phF, phG, phH, cnt, fini_sum in HI; decompose [and] HI; clear HI.
+
+Theorem init_once n s : reachable (initial n) step s ->
+  (* the real initialisation and the tear-down alternate: exactly one initialisation per epoch *)
+  (n_fini s <= n_really s <= S (n_fini s))%nat /\
+  (n_really s <= n_cas s <= S (n_really s))%nat /\
+  (* at most one caller is ever inside the real initialisation *)
+  (forall i j ti tj, nth_error (threads s) i = Some ti -> nth_error (threads s) j = Some tj ->
+                     initialiser ti = true -> initialiser tj = true -> i = j) /\
+  (* a caller whose initialisation call has returned: it returned 1, the state is "initialized", the
+     real initialisation of this epoch is complete and not torn down, the workers are those of g_attr *)
+  (forall i t r, nth_error (threads s) i = Some t -> t_pc t = DoneI r ->
+                 r = 1 /\ st s = 2 /\ n_really s = S (n_fini s) /\ gnw s = Some (nworkers s) /\
+                 flags s = start_flags (nworkers s) /\ no_fini s = true) /\
+  (* a caller whose finalisation has returned: the state is "uninit", everything is torn down *)
+  (forall i t r, nth_error (threads s) i = Some t -> t_pc t = DoneF r ->
+                 st s = 0 /\ n_really s = n_fini s /\ nworkers s = 0) /\
+  (st s = 0 -> n_cas s = n_really s /\ n_really s = n_fini s /\ nworkers s = 0).
+Proof.
+  intros Hr. pose proof (inv_reachable n s Hr) as HI. pose proof (local_reachable n s Hr) as HL.
+  pose proof (cntl_total (threads s)) as Htot.
+  split; [by_phase HI; lia|]. split; [by_phase HI; lia|]. split; [|split; [|split]].
+  - intros i j ti tj Hi Hj Hpi Hpj. destruct (Nat.eq_dec i j) as [E|E]; [exact E|exfalso].
+    pose proof (cntp_two initialiser (threads s) i j ti tj Hi Hj E Hpi Hpj) as H2.
+    rewrite cntp_initialiser in H2. by_phase HI; lia.
+  - intros i t r Hi Hpc.
+    assert (H12 : (1 <= cntl 12 (threads s))%nat)
+      by (apply (cntl_ge1 12 (threads s) i t Hi); unfold klass; rewrite Hpc; reflexivity).
+    split; [exact (proj2 (HL i t Hi) r Hpc)|].
+    by_phase HI; try (exfalso; lia).
+    repeat split; try assumption.
+    unfold no_fini. apply forallb_forall. intros x Hx. apply In_nth_error in Hx. destruct Hx as [k Hk].
+    destruct (in_fini x) eqn:Ef; [|reflexivity]. exfalso.
+    assert (Hq' : exists q, (q = 6 \/ q = 7 \/ q = 8 \/ q = 9 \/ q = 10 \/ q = 11 \/ q = 13)%nat /\ klass x = q).
+    { unfold in_fini, klass in *. destruct (t_pc x); try discriminate; eexists; (split; [|reflexivity]); lia. }
+    destruct Hq' as (q & Hq & Hkq). pose proof (cntl_ge1 q (threads s) k x Hk Hkq). 
+    destruct Hq as [->|[->|[->|[->|[->|[->| ->]]]]]]; lia.
+  - intros i t r Hi Hpc.
+    assert (H13 : (1 <= cntl 13 (threads s))%nat)
+      by (apply (cntl_ge1 13 (threads s) i t Hi); unfold klass; rewrite Hpc; reflexivity).
+    by_phase HI; try (exfalso; lia). repeat split; assumption.
+  - intros H0. by_phase HI; try lia; repeat split; assumption.
 Qed.
